@@ -61,6 +61,12 @@ def make_cases(rng, tier):
                       % (j, k, 1 + k % 5, k, k, j, k) for k in range(nst)) + "\n@compute @workgroup_size(1) fn main() { _ = h0.a; }\n"
         out.append({"id": len(out), "wgsl": w, "include": None, "opts": {"rustfmt": True, "bm_host": True, "encase": True, "mv": "Glam"},
                     "want_text": True, "nt": True})
+    # regenerating one include path after an edit that keeps the file's length (a result must depend on the source given,
+    # not on what an earlier call with the same path was given)
+    head_ = W.random_program(rng).render()
+    for kk in range(6):
+        out.append({"id": len(out), "wgsl": head_ + "const MODE: u32 = %du;\noverride gain%d: f32 = 1.0;\n// tail\n" % (kk + 1, kk % 2),
+                    "include": "gen/variant.wgsl", "opts": {}, "want_text": True, "nt": True})
     # the validator's verdict depends on the capability set given with THIS call: the same text under restrictive /
     # permissive / restrictive sets (a result must not depend on what earlier calls in the process were given)
     for t in ("var<push_constant> pc: vec4<f32>;\n@fragment fn fs() -> @location(0) vec4<f32> { return pc; }\n",
@@ -110,6 +116,12 @@ def run(tier, seed, replay):
         if p.returncode != 0:
             broken.append({"what": "driver failed in variant %d" % k, "detail": p.stdout.decode(errors="replace")[-1000:]})
             continue
+        try:
+            if json.load(open(cout + ".meta")).get("panic_hook_intact") is False:
+                violations.append({"what": "after the calls of this run the process-wide panic hook is no longer the one the application installed: generation modified global state",
+                                   "variant": {"index": k, "cwd": cwd}, "kf": None})
+        except (OSError, ValueError):
+            pass
         res = {}
         for l in open(cout):
             r = json.loads(l)
@@ -153,6 +165,33 @@ def run(tier, seed, replay):
                                    "wgsl": storm[j]["wgsl"], "opts": storm[j]["opts"], "include": storm[j]["include"],
                                    "variant": {"workers": 64}, "first": (storm_res[0][j][1] or "")[:1500], "other": (storm_res[1][j][1] or "")[:1500], "kf": None})
                 break
+    # a formatter that needs several seconds (and then formats normally): the text must not depend on how long it took
+    rc_, out_ = sh("command -v rustfmt")
+    real_fmt = out_.strip().split("\n")[-1] if rc_ == 0 else None
+    if real_fmt:
+        slowdir = os.path.join(workdir, "slow_fmt")
+        os.makedirs(slowdir, exist_ok=True)
+        sp = os.path.join(slowdir, "rustfmt")
+        open(sp, "w").write("#!/bin/sh\nsleep 6\nexec %s \"$@\"\n" % real_fmt)
+        os.chmod(sp, 0o755)
+        two = [dict(c) for c in storm[:2]]
+        texts = []
+        for label, path_env in (("normal", os.environ.get("PATH", "")), ("slow", slowdir + ":" + os.environ.get("PATH", ""))):
+            cin = os.path.join(workdir, "slow_%s.jsonl" % label)
+            cout = os.path.join(workdir, "slow_%s.results.jsonl" % label)
+            with open(cin, "w") as f:
+                for c in two:
+                    f.write(json.dumps(c, ensure_ascii=False) + "\n")
+            p = subprocess.run([DRIVER, "gen", cin, cout], env=dict(os.environ, PATH=path_env), stdout=subprocess.PIPE, stderr=subprocess.STDOUT, timeout=600)
+            if p.returncode != 0:
+                broken.append({"what": "driver failed with the %s formatter" % label, "detail": p.stdout.decode(errors="replace")[-1000:]})
+                break
+            texts.append([json.loads(l).get("text") for l in open(cout)])
+            evals += len(two)
+        if len(texts) == 2 and texts[0] != texts[1]:
+            violations.append({"what": "the returned text depends on how long the formatter took (a 6 s formatter run gave a different text)",
+                               "wgsl": two[0]["wgsl"], "opts": two[0]["opts"], "include": two[0]["include"],
+                               "first": (texts[0][0] or "")[:1500], "other": (texts[1][0] or "")[:1500], "kf": None})
     strace_note = "not run (quick tier)"
     if tier == "thorough":
         rc, _ = sh("command -v strace")
